@@ -62,6 +62,11 @@ impl Recorder {
     }
 
     async fn maybe_stall(&self) {
+        if self.stall_16 >= 16 {
+            // a handler that always takes a little time
+            tokio::time::sleep(Duration::from_millis(u64::from(self.max_stall_ms.max(1)))).await;
+            return;
+        }
         if self.stall_16 > 0 && self.world.chance(self.stall_16, 16) {
             let d = self.world.draw(self.max_stall_ms + 1);
             self.world.stat("proc.handler_stall");
